@@ -162,6 +162,9 @@ def handleWorld (st : St) (op : String) (j : Json) : Option (E (St × Json)) :=
         pure (some a)
     let did ← optDidJ (fieldD j "did" .null)
     let wc ← optBoolJ (fieldD j "clones" .null)
+    let isRename := (fieldD j "via" .null) == Json.str "rename"
+    -- `rename`: only for plain string nodes, then `set_data(new_name)`
+    if isRename && !n.data.isStr then return reply st (some .value)
     match t.setData n.id a did wc with
     | .ok t1 => return reply (setTree st i t1) none
     | .error e => return reply st (some e)
